@@ -1,6 +1,6 @@
 SPECIFICATION Spec
 CONSTANTS Kind = "forms"
- NMax = 16
+ NMax = 25
  DMax = 12
  LMax = 0
  ScaleSet = {0}
